@@ -6,7 +6,8 @@ RULE = ("every frame that travels in the ClientFile.tla scenario grid (all T typ
         "layout table exported from Wire.tla: size field = length, every field in Wire.tla's order equals what the caller passed / "
         "the backend returned (positionally, so swapped or mis-sized fields show), permission fields carry 12 bits only, and "
         "re-encoding the decoded values reproduces the bytes; 65535-byte names and Tauth/Tflush travel in the raw-peer drivers of "
-        "C09/C04/C06, which use the same codec")
+        "C09/C04/C06, which use the same codec; plus Treaddir for 150 consecutive counts and 72 consecutive msize values over "
+        "a directory with mixed name lengths: the entries of the reply, sized qid[13] offset[8] type[1] name[s], total at most the requested count")
 
 
 def run(tier, seed):
